@@ -484,9 +484,17 @@ def from_json(
   elif isinstance(json_value, dict):
     if JSONConvertible.TYPE_NAME_KEY not in json_value:
       return {k: child_from(v) for k, v in json_value.items()}
-    factory_fn = json_value.pop(JSONConvertible.TYPE_NAME_KEY)
+    factory_fn = json_value[JSONConvertible.TYPE_NAME_KEY]
     assert factory_fn is not None
-    return factory_fn(json_value, **kwargs)
+    # NOTE: the input keeps its (resolved) type, so that loading it again
+    # returns the same value.
+    return factory_fn(
+        {
+            k: v for k, v in json_value.items()
+            if k != JSONConvertible.TYPE_NAME_KEY
+        },
+        **kwargs
+    )
   return json_value
 
 
